@@ -64,12 +64,14 @@ pub fn sources(seed: u64) -> Vec<Src> {
 
 #[derive(Clone)]
 pub enum Op {
+    /// a start_file call whose name is one byte too long for the format: refused, and nothing else may change
+    Rejected,
     Normal(u8),
     Copy { src: usize, idx: usize, raw_open: bool, rename: Option<String> },
 }
 
 pub fn alphabet(srcs: &[Src], reduced: bool) -> Vec<Op> {
-    let mut v = vec![Op::Normal(0)];
+    let mut v = vec![Op::Normal(0), Op::Rejected];
     let renames = ["r".to_string(), "ü/☃".to_string(), "n".repeat(255)];
     for (si, s) in srcs.iter().enumerate() {
         for (i, e) in s.parsed.entries.iter().enumerate() {
@@ -92,12 +94,15 @@ pub fn alphabet(srcs: &[Src], reduced: bool) -> Vec<Op> {
 fn op_json(o: &Op) -> Value {
     match o {
         Op::Normal(k) => json!({"normal": k}),
+        Op::Rejected => json!({"rejected": true}),
         Op::Copy { src, idx, raw_open, rename } => json!({"copy": [src, idx], "raw_open": raw_open, "rename": rename}),
     }
 }
 fn op_from(v: &Value) -> Op {
     if let Some(k) = v["normal"].as_u64() {
         Op::Normal(k as u8)
+    } else if v["rejected"].as_bool() == Some(true) {
+        Op::Rejected
     } else {
         Op::Copy { src: v["copy"][0].as_u64().unwrap_or(0) as usize, idx: v["copy"][1].as_u64().unwrap_or(0) as usize, raw_open: v["raw_open"].as_bool().unwrap_or(false), rename: v["rename"].as_str().map(|s| s.to_string()) }
     }
@@ -120,11 +125,23 @@ pub fn check_seq_io(ops: &[Op], srcs: &[Src], src_bytes: &[Vec<u8>], seed: u64, 
                 calls.push(Call::Write(normal_content.clone()));
             }
             Op::Copy { src, idx, raw_open, rename } => calls.push(Call::RawCopy { src: *src, idx: *idx, rename: rename.clone(), raw_open: *raw_open }),
+            Op::Rejected => calls.push(Call::StartFile { name: "n".repeat(65536), opts: FOpts::m(8) }),
         }
     }
     calls.push(Call::Finish);
     let (res, bytes) = if sink_chunk == 0 && src_chunk == 0 { exec(&calls, src_bytes) } else { exec_chunked(&calls, src_bytes, sink_chunk, src_chunk) };
-    if let Some((c, r)) = calls.iter().zip(&res).find(|(_, r)| !r.is_ok()) {
+    // the over-long name must be refused (C02 judges that); if it was accepted the sequence says nothing about copies
+    let is_rejected_call = |c: &Call| matches!(c, Call::StartFile { name, .. } if name.len() > 65535);
+    if calls.iter().zip(&res).any(|(c, r)| is_rejected_call(c) && r.is_ok()) {
+        st.class("over-long-name-accepted(C02)");
+        return;
+    }
+    let ops_all = ops;
+    let kept: Vec<Op> = ops.iter().filter(|o| !matches!(o, Op::Rejected)).cloned().collect();
+    let ops: &[Op] = &kept;
+    // entry k of the archive belongs to kept op k; `k` in the names of ordinary entries is the position in the full list
+    let pos: Vec<usize> = ops_all.iter().enumerate().filter(|(_, o)| !matches!(o, Op::Rejected)).map(|(i, _)| i).collect();
+    if let Some((c, r)) = calls.iter().zip(&res).find(|(c, r)| !r.is_ok() && !(is_rejected_call(c) && r.is_err())) {
         let kind = if r.is_panic() { "panic" } else { "call-failed" };
         st.class("CALL-FAILED");
         st.viol(format!("rawcopy/{kind}/{}/{}", c.opname(), panic_site(&r.show())), format!("{} returned {} in sequence {:?}", c.opname(), r.show(), ops.iter().map(op_json).collect::<Vec<_>>()), case(), order);
@@ -163,7 +180,9 @@ pub fn check_seq_io(ops: &[Op], srcs: &[Src], src_bytes: &[Vec<u8>], seed: u64, 
         let g = &obs.entries[k];
         let p: &PEntry = &parsed.entries[k];
         match o {
+            Op::Rejected => {}
             Op::Normal(_) => {
+                let k = pos[k];
                 if g.name != format!("normal-{k}") || g.content.as_ref().ok() != Some(&normal_content) || g.mode != Some(0o100640) {
                     bad("neighbour-damaged", format!("ordinary entry {k} next to a raw copy reads back as name {:?}, mode {:?}, content ok: {}", g.name, g.mode, g.content.as_ref().ok() == Some(&normal_content)), st);
                 }
@@ -205,6 +224,7 @@ pub fn check_seq_io(ops: &[Op], srcs: &[Src], src_bytes: &[Vec<u8>], seed: u64, 
             .iter()
             .map(|o| match o {
                 Op::Normal(_) => "N".to_string(),
+                Op::Rejected => "X".to_string(),
                 Op::Copy { src, idx, rename, .. } => format!("R{}m{}", if rename.is_some() { "'" } else { "" }, srcs[*src].parsed.entries[*idx].method),
             })
             .collect();
